@@ -72,10 +72,36 @@ func execWalk(op string) (answer string) {
 		}
 	}()
 	sc := parseWalk(op)
+	env, fatal := setupWalk(sc)
+	if fatal != "" {
+		return fatal
+	}
+	defer env.s.Close()
+	return env.walk(sc)
+}
+
+// walkEnv is one real Session against one scripted node, with the paged query of the scenario.
+type walkEnv struct {
+	s      *gocql.Session
+	q      *gocql.Query
+	mu     sync.Mutex
+	log    []string
+	states [][]byte // paging state of every QUERY/EXECUTE received
+}
+
+func (e *walkEnv) reqLog() string {
+	e.mu.Lock()
+	defer e.mu.Unlock()
+	if len(e.log) == 0 {
+		return "-"
+	}
+	return strings.Join(e.log, ",")
+}
+
+func setupWalk(sc walkScen) (env *walkEnv, fatal string) {
+	env = &walkEnv{}
+	mu, log, states := &env.mu, &env.log, &env.states
 	cl := memcluster.NewCluster(sc.ver, "10.0.0.1")
-	var mu sync.Mutex
-	var log []string
-	var states [][]byte // paging state of every QUERY/EXECUTE received
 	nreq := 0
 	var first string
 	cols := []memcluster.Col{{Name: "v", Type: memcluster.TInt}}
@@ -83,7 +109,7 @@ func execWalk(op string) (answer string) {
 		switch req.Op {
 		case memcluster.OpPrepare:
 			mu.Lock()
-			log = append(log, "P")
+			*log = append(*log, "P")
 			mu.Unlock()
 			req.Conn.Reply(req.Stream, memcluster.OpResult, memcluster.PreparedBody(sc.ver, preparedID,
 				[]memcluster.Col{{Name: "id", Type: memcluster.TInt}}, []int{0}, cols))
@@ -110,12 +136,12 @@ func execWalk(op string) (answer string) {
 			st, ps := ".", "."
 			if req.QFlags&0x08 != 0 {
 				st = vh.Hex(req.PageState)
-				states = append(states, append([]byte{}, req.PageState...))
+				*states = append(*states, append([]byte{}, req.PageState...))
 			}
 			if req.HasPageSize {
 				ps = strconv.Itoa(int(req.PageSize))
 			}
-			log = append(log, fmt.Sprintf("%s%s:%s:%s", name, same, st, ps))
+			*log = append(*log, fmt.Sprintf("%s%s:%s:%s", name, same, st, ps))
 			var r reply
 			if k < len(sc.script) {
 				r = sc.script[k]
@@ -160,9 +186,9 @@ func execWalk(op string) (answer string) {
 	cfg.DisableSkipMetadata = sc.kind == "xd"
 	s, err := cfg.CreateSession()
 	if err != nil {
-		return "fatal:" + err.Error()
+		return nil, "fatal:" + err.Error()
 	}
-	defer s.Close()
+	env.s = s
 	if sc.pageSize == 3 {
 		s.SetPageSize(3)
 	}
@@ -170,11 +196,13 @@ func execWalk(op string) (answer string) {
 		s.SetPrefetch(0.5)
 	}
 	if !sess.WaitConns(s, 1, 10*time.Second) {
-		return "fatal:no connection"
+		s.Close()
+		return nil, "fatal:no connection"
 	}
 	pf, err := strconv.ParseFloat(sc.prefetch, 64)
 	if err != nil {
-		return "bad-op"
+		s.Close()
+		return nil, "bad-op"
 	}
 	var q *gocql.Query
 	switch sc.kind {
@@ -185,7 +213,8 @@ func execWalk(op string) (answer string) {
 	case "xs", "xd":
 		q = s.Query(stmtPrepared, 7)
 	default:
-		return "bad-op"
+		s.Close()
+		return nil, "bad-op"
 	}
 	if sc.pageSize != 5000 && sc.pageSize != 3 {
 		q = q.PageSize(sc.pageSize)
@@ -193,8 +222,12 @@ func execWalk(op string) (answer string) {
 	if sc.prefetch != "0.25" && sc.prefetch != "0.5" {
 		q = q.Prefetch(pf)
 	}
-	q = q.WithContext(context.Background())
+	env.q = q.WithContext(context.Background())
+	return env, ""
+}
 
+func (env *walkEnv) walk(sc walkScen) string {
+	q, mu, states := env.q, &env.mu, &env.states
 	done := make(chan string, 1)
 	go func() {
 		var res string
@@ -260,7 +293,7 @@ func execWalk(op string) (answer string) {
 			for {
 				mu.Lock()
 				seenIt := false
-				for _, st := range states {
+				for _, st := range *states {
 					if bytes.Equal(st, want) {
 						seenIt = true
 					}
@@ -358,13 +391,7 @@ func execWalk(op string) (answer string) {
 		}
 		// let a running prefetch finish (Close does not stop it), then the log is final
 		await(c)
-		mu.Lock()
-		l := strings.Join(log, ",")
-		mu.Unlock()
-		if l == "" {
-			l = "-"
-		}
-		res = fmt.Sprintf("%s rows=%s err=%s reqs=%s", strings.Join(obs, ";"), showRows(all), errClass(cerr), l)
+		res = fmt.Sprintf("%s rows=%s err=%s reqs=%s", strings.Join(obs, ";"), showRows(all), errClass(cerr), env.reqLog())
 	}()
 	select {
 	case a := <-done:
